@@ -55,6 +55,13 @@ def lobato_numerators(a, b):
     return N, Nd
 
 
+RECORDED = {  # the three known ionic entries (float64, grid r = 0.01 … 3.0 step 0.01): minimum, its location, largest increase, its location
+    "peng_ionic:Si++++": dict(min=-0.0106467, r_min=1.07, inc=0.000362509, r_inc=1.19),
+    "peng_ionic:Ge++++": dict(min=-0.00948386, r_min=1.45, inc=0.000214262, r_inc=1.62),
+    "peng_ionic:Pd++": dict(min=-0.158504, r_min=1.64, inc=0.0132028, r_inc=1.90),
+}
+
+
 def parametrization(name, table=None):
     import abtem.parametrizations as P
 
@@ -69,7 +76,7 @@ class C25(Property):
     extra_lean = ["AbtemVerif/Lib/ParamCalc.lean", "AbtemVerif/Lib/ParamProj.lean"]
     trusted = [
         "IEEE: float64/float32 evaluation of the kernels (Float twins of the generated formulas agree with the numba kernels to 1e-12; the "
-        "public API evaluates with float32 parameters, compared at 2e-5); `np.array(np.pi, dtype=float32)` is read as π",
+        "public API callables (float32 parameters) compared pointwise with a per-term float32 allowance); `np.array(np.pi, dtype=float32)` is read as π",
         "QUADRATURE (validation, not proof): scipy.integrate.quad for the Hankel / 3-D Fourier / projection integrals that relate the real-space "
         "and reciprocal-space forms — the transform pairs themselves are NOT formalised",
         "JSON: the coefficient files are read as exact decimals by the translator; json.load / float() rounding on the Python side is IEEE",
@@ -79,7 +86,7 @@ class C25(Property):
                    "(Ra in peng_high; Rb, Np in peng_low; 15 entries of peng_ionic), which are only sampled",
                    "Lobato real-space potential positivity/monotonicity is sampled only (mixed-sign coefficients)"]
     rule = ("correspondence: every entry of the five tables (exact), Float twins of all kernels on random elements × arguments, scaled parameters, "
-            "Lobato numerator polynomials of all elements against an independent Fraction expansion; conformance: every element of the three "
+            "Lobato numerator polynomials of all elements against an independent Fraction expansion; conformance: every element of all five "
             "default tables on r / k grids through the public API, quadrature validation for sampled elements; distinct = distinct case JSON")
 
     # ------------------------------------------------------------------ correspondence
@@ -259,26 +266,65 @@ class C25(Property):
             psf = np.asarray(psf_fn(k ** 2, np.array(par.scaled_parameters(sym, "projected_scattering_factor"), dtype=np.float64)), dtype=float)
             if not (f > 0).all():
                 ctx.violation(f"{tag}:scattering-factor-not-positive", case, {"min": float(f.min()), "at k": float(k[int(f.argmin())])})
-            if (np.diff(f) >= 0).any():
+            if not (np.diff(f) < 0).all():
                 i = int(np.argmax(np.diff(f)))
                 ctx.violation(f"{tag}:scattering-factor-not-decreasing", case, {"k": float(k[i]), "increase": float(np.diff(f)[i])})
+            # the three recorded ionic entries: the known key is emitted only when the observed failure IS the recorded one — potential
+            # re-derived here from the published Gaussians of the JSON row (own formula), minimum and location inside a band around
+            # the recorded values; anything else on these ions is reported under `…:changed`
+            rec = RECORDED.get(tag)
+            suffix = ""
+            if rec is not None:
+                row = load_exact(case.get("table", "peng_high.json").replace(".json", ""))[sym]
+                a_ = np.array([float(x) for x in row[0]])
+                b_ = np.array([float(x) for x in row[1]]) / 4.0
+                own = (np.pi ** 1.5 * a_[:, None] / b_[:, None] ** 1.5 / kappa * np.exp(-np.pi ** 2 * r[None] ** 2 / b_[:, None])).sum(0)
+                same = bool(np.abs(own - v).max() <= 1e-9 * np.abs(v).max())
+                i_min = int(v.argmin())
+                inc = np.diff(v)
+                i_inc = int(np.argmax(inc))
+                ok = (same and abs(v[i_min] - rec["min"]) <= 0.02 * abs(rec["min"]) and abs(r[i_min] - rec["r_min"]) <= 0.03
+                      and abs(r[i_inc] - rec["r_inc"]) <= 0.05 and abs(inc[i_inc] - rec["inc"]) <= 0.05 * abs(rec["inc"])
+                      and bool((v[: int(np.argmax(v <= 0))] > 0).all()))
+                suffix = "" if ok else ":changed"
             if not (v > 0).all():
-                ctx.violation(f"{tag}:potential-not-positive", case, {"min": float(v.min()), "at r": float(r[int(v.argmin())])})
-            if (np.diff(v) >= 0).any():
+                ctx.violation(f"{tag}:potential-not-positive{suffix}", case, {"min": float(v.min()), "at r": float(r[int(v.argmin())])})
+            if not (np.diff(v) < 0).all():
                 i = int(np.argmax(np.diff(v)))
-                ctx.violation(f"{tag}:potential-not-decreasing", case, {"r": float(r[i]), "increase": float(np.diff(v)[i])})
+                ctx.violation(f"{tag}:potential-not-decreasing{suffix}", case, {"r": float(r[i]), "increase": float(np.diff(v)[i])})
             raw = np.array(par.parameters[sym], dtype=float)
             cond = float(np.abs(raw[0]).sum() / abs(raw[0].sum()))
             # proved algebraically for the kernels; numba evaluates π in float32 inside the Lobato/Kirkland projected kernels
             if np.abs(psf * kappa - f).max() > 1e-6 * cond * abs(f[0]):
                 ctx.violation(f"{tag}:projected-scattering-factor-differs-from-sf-over-kappa", case,
                               {"max rel diff": float(np.abs(psf * kappa - f).max() / abs(f[0]))})
-            # public API (float32 parameters): agrees with the float64 kernels up to float32 rounding × conditioning
-            fa = np.asarray(par.scattering_factor(sym)(k ** 2), dtype=float)
+            # public API (float32 parameters through get_function): the callables the API returns are compared POINTWISE with the float64
+            # kernels; allowance = float32 rounding of each term, 2e-6·Σ_i |term_i(x)|·(2 + decay exponent of term i at x)
+            def allowance(fn, x, pname):
+                p64 = np.array(par.scaled_parameters(sym, pname), dtype=np.float64)
+                amp_rows = [0, 2] if name == "kirkland" else [0]
+                tot = np.zeros_like(x)
+                for j in range(p64.shape[1]):
+                    for row_ in amp_rows:  # one term at a time
+                        q = p64.copy()
+                        for other in amp_rows:
+                            q[other, :] = 0.0
+                        q[row_, j] = p64[row_, j]
+                        t = np.abs(np.asarray(fn(x, q), dtype=float))
+                        tot += t * (2.0 + np.abs(np.log(np.maximum(t, 1e-300) / max(t.max(), 1e-300))))
+                return 2e-6 * tot
+
+            kk = k[:241]
+            fa = np.asarray(par.scattering_factor(sym)(kk ** 2), dtype=float)
             va = np.asarray(par.potential(sym)(r), dtype=float)
-            if np.abs(fa - f).max() > 3e-6 * cond * abs(f[0]) or np.abs(va - v).max() > 3e-6 * cond * np.abs(v).max():
+            tf, tv = allowance(sf_fn, kk ** 2, "scattering_factor"), allowance(pot_fn, r, "potential")
+            if not (np.abs(fa - f[:241]) <= tf).all() or not (np.abs(va - v) <= tv).all():
                 ctx.violation(f"{tag}:public-api-differs-from-float64-kernels", case,
-                              {"sf": float(np.abs(fa - f).max() / abs(f[0])), "pot": float(np.abs(va - v).max() / np.abs(v).max())})
+                              {"sf worst / allowance": float((np.abs(fa - f[:241]) / tf).max()), "pot worst / allowance": float((np.abs(va - v) / tv).max())})
+            # sign and monotonicity of the API callables themselves (beyond their float32 allowance)
+            if rec is None and (not (fa > -tf).all() or not (np.diff(fa) < tf[1:] + tf[:-1]).all()
+                                or not (va > -tv).all() or not (np.diff(va) < tv[1:] + tv[:-1]).all()):
+                ctx.violation(f"{tag}:public-api-callable-not-positive-decreasing", case, {"min sf": float(fa.min()), "min pot": float(va.min())})
         elif kind == "transforms":  # VALIDATION by quadrature (the transform pairs are not formalised)
             from scipy.integrate import quad
             from scipy.special import j0
